@@ -17,7 +17,7 @@ structure FnVoidOK (G : GCtx) (g : String) (fd : FnDef) (I : FnInfo) (stmts : Li
   vars : ∀ m ∈ codeVars (cgFn G.mod I.φ fd stmts none I.scopes0 I.vm0 I.lm0), I.N m
   slot : ∀ m, I.N m → I.σ m < (fnParts G.mod I.φ fd stmts none I.scopes0 I.vm0 I.lm0).envE.nv
   frame : (fnParts G.mod I.φ fd stmts none I.scopes0 I.vm0 I.lm0).envE.nv ≤ G.F
-  okS : Frag.okGSs false true stmts = true
+  okS : Frag.okFSs G.fr false true stmts = true
   wsS : Frag.wsGSs G.mod g I.φ [] stmts (fnParts G.mod I.φ fd stmts none I.scopes0 I.vm0 I.lm0).envB = true
   tParams : ∀ p ∈ fd.params, p.name ∈ I.T
   tIdents : ∀ x ∈ Frag.identsGSs stmts, x ∈ I.T
@@ -28,27 +28,28 @@ structure FnVoidOK (G : GCtx) (g : String) (fd : FnDef) (I : FnInfo) (stmts : Li
 /-- A call of a function without trailing expression: on normal completion nothing is pushed
 (the body fell through) or the returned value is (a `return e;` was executed). -/
 def SimCallV (G : GCtx) (g : String) (frames : List Frame) (mp : Int) (args : List Val) (stk : List SVal)
-    (mem : List (Int × Val)) (st : St) (r : Except Ctl Val × St) : Prop :=
+    (mem : Mem) (st : St) (r : Except Ctl Val × St) : Prop :=
   match r with
   | (.ok v, st') =>
     st' = { st with out := st'.out, heap := st'.heap } ∧
       ∃ mem' stk', (stk' = stk ∨ stk' = ⟨v, none⟩ :: stk) ∧
-        RunsCall G g frames mp (args.map (⟨·, none⟩) ++ stk) mem st.world stk' mem' st'.world ∧ MemLe mp mem mem'
+        RunsCall G g frames mp (args.map (⟨·, none⟩) ++ stk) mem st.world stk' mem' st'.world ∧ MemLe G.fr mp mem mem'
   | (.error (.fatal kd m sp), st') =>
     kd ≠ "StackOverFlow" → RunsCallF G g frames mp (args.map (⟨·, none⟩) ++ stk) mem st.world kd m sp st'.world
   | (.error (.throw msg sp), st') =>
     st' = { st with out := st'.out, heap := st'.heap } ∧
       ∃ mem', RunsCallT G g frames mp (args.map (⟨·, none⟩) ++ stk) stk mem st.world msg sp mem' st'.world ∧
-        MemLe mp mem mem'
+        MemLe G.fr mp mem mem'
   | (.error (.unsupported _), _) => True
   | (.error .timeout, _) => True
   | _ => False
 
 /-- **A call of a function without trailing expression** (in particular the entry function):
 prologue, parameters, statements, epilogue. -/
-theorem callV_correct (G : GCtx) (hG : G.OK) (fuel : Nat) (g : String) (fd : FnDef) (I : FnInfo)
-    (stmts : List Stmt) (hFn : FnVoidOK G g fd I stmts) (sp : Span) (vals : List Val) (st : St)
-    (frames : List Frame) (mp : Int) (stk : List SVal) (mem : List (Int × Val)) (hsp : SpecOK G mp st)
+theorem callV_correct (G : GCtx) (hG : G.OK') (fuel : Nat) (g : String) (fd : FnDef) (I : FnInfo)
+    (stmts : List Stmt) (hFn : FnVoidOK G g fd I stmts)
+    (hgh : G.fr = true → ∀ y ∈ I.T, ("$iter_" ++ y) ∉ I.T) (sp : Span) (vals : List Val) (st : St)
+    (frames : List Frame) (mp : Int) (stk : List SVal) (mem : Mem) (hsp : SpecOK G mp st)
     (hmp : 0 ≤ mp) :
     SimCallV G (mangleFnName G.mod g) frames mp vals stk mem st
       (callBody G.cfg fuel sp G.mod fd.params fd.body vals st) := by
@@ -106,11 +107,11 @@ theorem callV_correct (G : GCtx) (hG : G.OK) (fuel : Nat) (g : String) (fd : FnD
   have hhi : mp + (P.envE.nv : Int) < (G.lim.memory : Int) := by omega
   -- the activation
   obtain ⟨A, hAdef⟩ : ∃ A : Act, A = Act.mk (mangleFnName G.mod fd.name) fd.name P.cleanup frames
-    (mp + (P.envE.nv : Int)) I.c I.σ I.lab I.N I.T P.envE.nv I.φ true := ⟨_, rfl⟩
+    (mp + (P.envE.nv : Int)) I.c I.σ I.lab I.N I.T P.envE.nv I.φ true [] := ⟨_, rfl⟩
   have hA : A.OK G := by
     rw [hAdef]
     exact ⟨hFn.code, hFn.inj, hslot, by show 0 ≤ mp + (P.envE.nv : Int) - (P.envE.nv : Int); omega, hhi, hFn.phi,
-      hFn.key, hG.println, rfl⟩
+      hFn.key, hG.println, rfl, fun p hp => by simp at hp, hgh⟩
   -- the placement of the pieces
   obtain ⟨hpl1234, hpl5⟩ := hplaced.append
   obtain ⟨hpl123, hpl4⟩ := hpl1234.append
@@ -160,7 +161,7 @@ theorem callV_correct (G : GCtx) (hG : G.OK) (fuel : Nat) (g : String) (fd : FnD
     rw [henvB, hcl]; simp only [bodyEnv, hc']
   have henvBvm : P.envB.vm = (cgParams G.mod fd.sp fd.params env0).2.vm := by rw [henvB]; rfl
   have hgrel : GRel G A P.envB.scopes P.envB.vm [binds] mem1 := by
-    refine ⟨?_, ?_⟩
+    refine ⟨?_, ?_, fun p hp => by rw [hAdef] at hp; simp at hp, fun p hp => by rw [hAdef] at hp; simp at hp⟩
     · rw [henvBsc, henvBvm]
       rw [hc'] at hrelP
       exact hrelP.addKey _ _ (by rw [hAT]; exact hFn.key)
@@ -237,10 +238,10 @@ theorem FnVoidOK.withPolls {G : GCtx} {g fd I stmts} (h : FnVoidOK G g fd I stmt
     vars := h.vars, slot := h.slot, frame := h.frame, okS := h.okS, wsS := h.wsS
     tParams := h.tParams, tIdents := h.tIdents, key := h.key, outer := h.outer, phi := h.phi.withPolls p }
 
-theorem GCtx.OK.withPolls {G : GCtx} (h : G.OK) (p : Nat) : (G.withPolls p).OK :=
+theorem GCtx.OK'.withPolls {G : GCtx} (h : G.OK') (p : Nat) : (G.withPolls p).OK' :=
   { prog := fun g fd hK hf => by
-      obtain ⟨I, stmts, e, hFn⟩ := h.prog g fd hK hf
-      exact ⟨I, stmts, e, hFn.withPolls p⟩
+      obtain ⟨I, stmts, e, hFn, hgh⟩ := h.prog g fd hK hf
+      exact ⟨I, stmts, e, hFn.withPolls p, hgh⟩
     room := h.room, base := h.base, println := h.println, noPrintFn := h.noPrintFn, noThrowFn := h.noThrowFn }
 
 /-- **`Core.Run` on a top-level call of a function without trailing expression** (the entry
@@ -249,38 +250,39 @@ large as the number of instructions the whole call executes — all nested calls
 ends with `ok` in a state with no frame left, the memory pointer as before and the
 specification's output; and with the specification's fatal error (other than its own
 `StackOverFlow`) when it ends in one. -/
-theorem entry_run (G : GCtx) (hG : G.OK) (fuel : Nat) (g : String) (fd : FnDef) (I : FnInfo)
-    (stmts : List Stmt) (hFn : FnVoidOK G g fd I stmts) (sp : Span) (st : St) (mp : Int) (stk : List SVal)
-    (mem : List (Int × Val)) (hsp : SpecOK G mp st) (hmp : 0 ≤ mp)
+theorem entry_run (G : GCtx) (hG : G.OK') (fuel : Nat) (g : String) (fd : FnDef) (I : FnInfo)
+    (stmts : List Stmt) (hFn : FnVoidOK G g fd I stmts)
+    (hgh : G.fr = true → ∀ y ∈ I.T, ("$iter_" ++ y) ∉ I.T) (sp : Span) (st : St) (mp : Int) (stk : List SVal)
+    (mem : Mem) (hsp : SpecOK G mp st) (hmp : 0 ≤ mp)
     (hstack : stk.length ≤ G.lim.stack) (hcallLim : 1 ≤ G.lim.callStack) :
     match callBody G.cfg fuel sp G.mod fd.params fd.body [] st with
     | (.ok v, st') =>
       ∃ K, ∀ quantum, K ≤ quantum → ∀ vfuel, ∃ s',
-        run G.code G.lim quantum none (vfuel + 1) (mkS G.s [⟨mangleFnName G.mod g, 0⟩] mp 0 stk mem st.world) = .ok s' ∧
+        run G.code G.lim quantum none (vfuel + 1) (mkSI G.s [⟨mangleFnName G.mod g, 0⟩] mp 0 stk mem st.world) = .ok s' ∧
         s'.st = { G.s.st with out := st'.out, heap := st'.heap } ∧ s'.mp = mp ∧ s'.calls = [] ∧
         (s'.stack = stk ∨ s'.stack = ⟨v, none⟩ :: stk)
     | (.error (.fatal kd m fsp), st') =>
       kd ≠ "StackOverFlow" → ∃ K, ∀ quantum, K ≤ quantum → ∀ vfuel, ∃ s',
-        run G.code G.lim quantum none (vfuel + 1) (mkS G.s [⟨mangleFnName G.mod g, 0⟩] mp 0 stk mem st.world) =
+        run G.code G.lim quantum none (vfuel + 1) (mkSI G.s [⟨mangleFnName G.mod g, 0⟩] mp 0 stk mem st.world) =
           .fatal kd m fsp s' ∧ s'.st = { G.s.st with out := st'.out, heap := st'.heap }
     | (.error (.throw msg tsp), st') =>
       G.s.handlers = [] → ∃ K, ∀ quantum, K ≤ quantum → ∀ vfuel, ∃ s',
-        run G.code G.lim quantum none (vfuel + 1) (mkS G.s [⟨mangleFnName G.mod g, 0⟩] mp 0 stk mem st.world) =
+        run G.code G.lim quantum none (vfuel + 1) (mkSI G.s [⟨mangleFnName G.mod g, 0⟩] mp 0 stk mem st.world) =
           .fatal "UncaughtThrow" msg tsp s' ∧ s'.st = { G.s.st with out := st'.out, heap := st'.heap }
     | _ => True := by
-  have h := callV_correct (G.withPolls (G.s.polls + 1)) (hG.withPolls _) fuel g fd I stmts (hFn.withPolls _) sp []
+  have h := callV_correct (G.withPolls (G.s.polls + 1)) (hG.withPolls _) fuel g fd I stmts (hFn.withPolls _) hgh sp []
     st [] mp stk mem ⟨hsp.heap, hsp.module, hsp.globals, hsp.depth⟩ hmp
   have hrun : ∀ quantum vfuel,
-      run G.code G.lim quantum none (vfuel + 1) (mkS G.s [⟨mangleFnName G.mod g, 0⟩] mp 0 stk mem st.world) =
+      run G.code G.lim quantum none (vfuel + 1) (mkSI G.s [⟨mangleFnName G.mod g, 0⟩] mp 0 stk mem st.world) =
       match runQuantum G.code G.lim quantum
-          (mkS (G.withPolls (G.s.polls + 1)).s [⟨mangleFnName G.mod g, 0⟩] mp 0 stk mem st.world) with
+          (mkSI (G.withPolls (G.s.polls + 1)).s [⟨mangleFnName G.mod g, 0⟩] mp 0 stk mem st.world) with
       | .inl s' => run G.code G.lim quantum none vfuel s'
       | .inr o => o := by
     intro quantum vfuel
     rw [run]
     have h1 : ¬ stk.length > G.lim.stack := by omega
     have h2 : ¬ 1 > G.lim.callStack := by omega
-    simp only [mkS, Option.map_none, Option.getD_none, Bool.false_eq_true, if_false, List.length_singleton,
+    simp only [mkSI, mkS, withIt, Option.map_none, Option.getD_none, Bool.false_eq_true, if_false, List.length_singleton,
       h1, h2]
     rfl
   have hcode : (G.withPolls (G.s.polls + 1)).code = G.code := rfl
@@ -300,19 +302,19 @@ theorem entry_run (G : GCtx) (hG : G.OK) (fuel : Nat) (g : String) (fd : FnDef) 
       rw [hcode, hlim] at e1 e2
       simp only [List.map_nil, List.nil_append] at e1
       have e3 : exec1H G.code G.lim s1 = .intr (.throw msg tsp)
-          (mkS (G.withPolls (G.s.polls + 1)).s (frames' ++ []) mp' (0 + k + 1) (xs ++ stk) mem' st'.world) := by
+          (mkSI (G.withPolls (G.s.polls + 1)).s (frames' ++ []) mp' (0 + k + 1) (xs ++ stk) mem' st'.world) := by
         rw [exec1H_of_throw e2]
         unfold dispatch
-        have : (mkS (G.withPolls (G.s.polls + 1)).s (frames' ++ []) mp' (0 + k + 1) (xs ++ stk) mem' st'.world).handlers = [] := hh
+        have : (mkSI (G.withPolls (G.s.polls + 1)).s (frames' ++ []) mp' (0 + k + 1) (xs ++ stk) mem' st'.world).handlers = [] := hh
         rw [this]
-      have e4 : execHN G.code G.lim (k + 1) (mkS (G.withPolls (G.s.polls + 1)).s [⟨mangleFnName G.mod g, 0⟩] mp 0 stk mem
+      have e4 : execHN G.code G.lim (k + 1) (mkSI (G.withPolls (G.s.polls + 1)).s [⟨mangleFnName G.mod g, 0⟩] mp 0 stk mem
           st.world) = .intr (.throw msg tsp)
-          (mkS (G.withPolls (G.s.polls + 1)).s (frames' ++ []) mp' (0 + k + 1) (xs ++ stk) mem' st'.world) := by
+          (mkSI (G.withPolls (G.s.polls + 1)).s (frames' ++ []) mp' (0 + k + 1) (xs ++ stk) mem' st'.world) := by
         rw [execHN_add, e1]
         simp only []
         rw [execHN_one, e3]
       refine ⟨k + 1, fun quantum hq vfuel =>
-        ⟨mkS (G.withPolls (G.s.polls + 1)).s (frames' ++ []) mp' (0 + k + 1) (xs ++ stk) mem' st'.world, ?_, rfl⟩⟩
+        ⟨mkSI (G.withPolls (G.s.polls + 1)).s (frames' ++ []) mp' (0 + k + 1) (xs ++ stk) mem' st'.world, ?_, rfl⟩⟩
       obtain ⟨j, rfl⟩ : ∃ j, quantum = k + 1 + j := ⟨quantum - (k + 1), by omega⟩
       rw [hrun, runQuantum_of_execHN_throw G.code G.lim j (k + 1) _ _ _ _ e4]
     intro hk
@@ -328,7 +330,7 @@ theorem entry_run (G : GCtx) (hG : G.OK) (fuel : Nat) (g : String) (fd : FnDef) 
     rw [hcode, hlim] at hk
     simp only [List.map_nil, List.nil_append] at hk
     refine ⟨k + 1, fun quantum hq vfuel =>
-      ⟨mkS (G.withPolls (G.s.polls + 1)).s [] mp (0 + k) stk' mem' st'.world, ?_, rfl, rfl, rfl, hstk⟩⟩
+      ⟨mkSI (G.withPolls (G.s.polls + 1)).s [] mp (0 + k) stk' mem' st'.world, ?_, rfl, rfl, rfl, hstk⟩⟩
     obtain ⟨j, rfl⟩ : ∃ j, quantum = k + (j + 1) := ⟨quantum - k - 1, by omega⟩
     rw [hrun, runQuantum_of_execHN G.code G.lim (j + 1) k _ _ hk, runQuantum_done G.code G.lim j _ rfl]
 
@@ -342,7 +344,7 @@ theorem FnVoidOK.of_relocate (G : GCtx) (fd : FnDef) (stmts : List Stmt) (φ : S
     (hcode : findCode G.code (mangleFnName G.mod fd.name) = some (renameVars r))
     (hslot : ∀ m ∈ varNames r, slotFn r m < (fnParts G.mod φ fd stmts none scopes0 vm0 lm0).envE.nv)
     (hframe : (fnParts G.mod φ fd stmts none scopes0 vm0 lm0).envE.nv ≤ G.F)
-    (okS : Frag.okGSs false true stmts = true)
+    (okS : Frag.okFSs G.fr false true stmts = true)
     (wsS : Frag.wsGSs G.mod fd.name φ [] stmts (fnParts G.mod φ fd stmts none scopes0 vm0 lm0).envB = true)
     (tParams : ∀ p ∈ fd.params, p.name ∈ T) (tIdents : ∀ x ∈ Frag.identsGSs stmts, x ∈ T)
     (key : cleanupKey G.mod fd.name ∉ T)
